@@ -24,6 +24,8 @@ def build_die(d: dict, entry: str = "tree"):
         nt = d["netlist"]
     if nt is not None:
         nl = Netlist(nt)
+        if d.get("assign"):
+            nl.assign_rectangles({k: [list(r) for r in v] for k, v in d["assign"].items()})
     if entry == "string":
         src = f"{gd.yaml_num(d['W'])}x{gd.yaml_num(d['H'])}"
     elif entry == "text":
